@@ -184,7 +184,10 @@ class Gen:
         cols.append(["c", "cat", levels_column(cats), {"categories": cats, "ordered": False}])
         ocats = LEVELS["o"][: nlev["o"]]
         cols.append(["o", "cat", levels_column(ocats), {"categories": ocats, "ordered": True}])
-        cols.append(["k", "int", levels_column(list(range(1, nk + 1))), None])
+        # integer codes; in some frames the same codes arrive as floats (1.0, 2.0: a merge or a NaN upcast)
+        kkind = "float" if r.random() < 0.25 else "int"
+        cols.append(["k", kkind, [float(v) if kkind == "float" else v for v in levels_column(list(range(1, nk + 1)))],
+                     None])
         trials = [r.randint(1, 12) for _ in range(n)]
         cols.append(["t", "int", trials, None])
         cols.append(["s", "int", [r.randint(0, t) for t in trials], None])
@@ -570,7 +573,12 @@ class Gen:
             etext = a.text if r.random() < 0.6 else f"0 + {a.text}"
             used |= a.used
             fams |= a.fams | {"group_transform"}
-        it = Item(f"({etext} | {factor})", used, (), fams,
+        text = f"({etext} | {factor})"
+        if factor == "g + h" and ek not in ("1",) and not etext.startswith(("0", "-1")) and r.random() < 0.5:
+            # remove the implicit group-specific intercept of ONE of the factors again
+            text += f" - (1 | {r.choice(['g', 'h'])})"
+            fams.add("gminus")
+        it = Item(text, used, (), fams,
                   group={"effect_cats": sorted(ecats), "factor": fcols, "factor_text": factor})
         return it
 
@@ -699,7 +707,7 @@ class Gen:
             pool = [values[i] for i in retained if values[i] is not None]
             if not pool:
                 pool = [v for v in values if v is not None] or [0]
-            if kind == "float" and name != "dz":
+            if kind == "float" and name not in ("dz", "k"):
                 vals = [round(r.choice(pool) * scale + shift + r.gauss(0, 1), 3) for _ in range(n)]
             elif name == "t":
                 vals = [r.randint(1, 12) for _ in range(n)]
@@ -745,6 +753,11 @@ class Gen:
             c = F.col(polluted, v)
             labels = UNSEEN_MORE[v][: r.choice([1, 1, 2, 3])]
             r.shuffle(labels)
+            if c[1] in ("str", "int") and r.random() < 0.15:
+                # the new subject / category is written in another TYPE than the known ones (text next to integer
+                # codes, a number next to strings): the column becomes a mixed object column
+                labels = ["Kother"] if c[1] == "int" else [777]
+                c[1] = "obj"
             used_labels = []
             for j, i in enumerate(rows):
                 lab = labels[j % len(labels)]
@@ -970,7 +983,7 @@ class Gen:
             # new numbers / permuted levels, same shape, same columns
             new = {"cols": [], "index": list(spec["index"])}
             for name, kind, values, extra in spec["cols"]:
-                if kind == "float" and name != "dz":
+                if kind == "float" and name not in ("dz", "k"):
                     vals = [round(v * 1.5 + 3, 3) if v is not None else None for v in values]
                 else:
                     vals = list(values)
